@@ -382,6 +382,14 @@ func genRootObj(r *Rng, n int) ObjSpec {
 		if n >= 2 && r.Bool() { // not symmetric
 			o.A[1] += pickF(r, 0.25, -0.5, 1)
 		}
+		if n >= 2 && r.Bool() { // round 6: two rows exchanged, so that the Gauss-Jordan inverse of the Jacobian
+			// has to pivot (the planted root stays a root: row i is sum_j A_ij (x_j - d_j) + c_i (x_i - d_i)^3)
+			i := r.Intn(n)
+			k := (i + 1 + r.Intn(n-1)) % n
+			for j := 0; j < n; j++ {
+				o.A[i*n+j], o.A[k*n+j] = o.A[k*n+j], o.A[i*n+j]
+			}
+		}
 		for i := 0; i < n; i++ {
 			o.C[i] = pickF(r, 0, 0, 0.1, 1)
 		}
@@ -473,7 +481,7 @@ func genNewtonBox(r *Rng, s *Spec) {
 
 func genNewtonSpec(r *Rng) Spec {
 	s := Spec{StopAt: -1, Cap: 2500}
-	n := 1 + r.Pick([]int{5, 5, 2})
+	n := 1 + r.Pick([]int{10, 10, 5, 1, 1}) // round 6: up to 5 dimensions (pivoting in the solves of getDirection)
 	if r.Intn(5) < 3 {
 		s.Routine = "newton_root"
 		s.Obj = genRootObj(r, n)
@@ -481,6 +489,9 @@ func genNewtonSpec(r *Rng) Spec {
 		s.Routine = "newton_crit"
 		s.Obj = genObj(r, n)
 		s.Obj.ErrAfter, s.Obj.NaNAfter, s.Obj.ErrAbove = -1, -1, 0
+	}
+	if s.Obj.Kind == "quad" && n >= 2 && r.Intn(3) == 0 { // round 6: SPD but not diagonally dominant (pivoting)
+		makeNonDominant(s.Obj.A, n, pickF(r, 2, 3, -2))
 	}
 	injectFailures(r, &s.Obj)
 	s.X0 = genPoint(r, n)
@@ -593,7 +604,8 @@ func matBitsEq(a, b [][]float64) bool {
 //  3. no non-error return carries a point outside the constraint box;
 //  4. a non-error return carries the point of the last evaluation;
 //  5. the caller's start vector is unchanged;
-//  6. ("None" only) the direction solves J t = y up to rounding.
+//  6. the direction solves J t = y ("None") / (L D L') t = y with the library's own modified
+//     factors ("LDL") up to rounding (direction.go).
 func newtonOracle(s *Spec, r *Run) []Failure {
 	var fs []Failure
 	rt := "newton"
@@ -601,6 +613,7 @@ func newtonOracle(s *Spec, r *Run) []Failure {
 		fs = append(fs, Failure{rt + ".x0_written", fmt.Sprintf("caller's x0 %v became %v", s.X0, r.X0After)})
 	}
 	neval, nhook := 0, 0
+	dirFailed := false
 	var lastX []float64
 	var lastY []float64
 	var lastJ [][]float64
@@ -616,20 +629,10 @@ func newtonOracle(s *Spec, r *Run) []Failure {
 			}
 			nhook++
 		case "dir":
-			if modeCode(s.Mode) == 0 && !e.Err && !e.Panic && lastJ != nil && len(e.G) == len(lastY) {
-				res, scale := 0.0, 0.0
-				for i := range lastJ {
-					v := -lastY[i]
-					a := math.Abs(lastY[i])
-					for j := range lastJ[i] {
-						v += lastJ[i][j] * e.G[j]
-						a += math.Abs(lastJ[i][j] * e.G[j])
-					}
-					res = math.Max(res, math.Abs(v))
-					scale = math.Max(scale, a)
-				}
-				if res > 1e-6*scale && !math.IsNaN(res) && !math.IsInf(scale, 0) {
-					fs = append(fs, Failure{rt + ".direction_residual", fmt.Sprintf("direction %v does not solve J t = y for J=%v y=%v (residual %v)", e.G, lastJ, lastY, res)})
+			if !e.Err && !e.Panic && lastJ != nil && !dirFailed { // report the first bad direction of a run only
+				if msg := directionCheck(s.Mode, lastY, lastJ, e.G); msg != "" {
+					fs = append(fs, Failure{rt + ".direction_residual", msg})
+					dirFailed = true
 				}
 			}
 		}
